@@ -36,11 +36,13 @@ func (k Kind) String() string { return [...]string{"N", "E", "C"}[k] }
 type subKey struct{}
 type midKey struct{}
 type itemKey struct{}
+type upKey struct{}
 
 var (
 	SubKey  = subKey{}
 	MidKey  = midKey{}
 	ItemKey = itemKey{}
+	UpKey   = upKey{}
 )
 
 // Event is one observed callback.
@@ -55,6 +57,7 @@ type Event struct {
 	Sub    string // subscription marker seen in ctx ("" = absent)
 	Mid    string
 	Item   string
+	Up     string // marker attached by a context operator upstream of the operator under test
 	GID    int64
 	T      int64 // monotonic ns at entry
 	Late   bool  // delivered after a terminal (grammar violation)
@@ -146,7 +149,7 @@ func (r *Rec) enter(kind Kind, ctx context.Context, val string, orig any, err er
 	if err != nil {
 		e.ErrS = err.Error()
 	}
-	e.Sub, e.Mid, e.Item = mark(ctx, SubKey), mark(ctx, MidKey), mark(ctx, ItemKey)
+	e.Sub, e.Mid, e.Item, e.Up = mark(ctx, SubKey), mark(ctx, MidKey), mark(ctx, ItemKey), mark(ctx, UpKey)
 	r.mu.Lock()
 	e.Seq = Tick() // entry order and the grammar check are decided atomically
 	if r.terminal != Next {
